@@ -19,9 +19,9 @@ func init() {
 	register(&propDef{
 		ID: "C06",
 		Explain: "Decided: (R1) every access to resolver.Memory.{index,tags}, graph.Memory.{nodes,predecessors,successors}, oci.Store.{storage,tagResolver,graph} (under s.sync), oci.Store.index (under indexLock) and " +
-			"file.nameStatus.exists happens with the guarding mutex held in a sufficient mode on every path (locally or in every caller); the lock-free unsafeStore view is constructed only where s.sync is held exclusively and does not escape; " +
+			"file.nameStatus.exists happens with the guarding mutex held in a sufficient mode on every path (locally or in every caller); the lock-free unsafeStore view is constructed and used only where s.sync is held exclusively and does not escape; blobs are removed (storage.Delete, os.Remove) only with s.sync held exclusively; " +
 			"(R2) refusals precede mutation: cas.Memory.Push returns ErrAlreadyExists on both detection points without storing and returns nil only when LoadOrStore stored; oci.Storage.Push returns ErrAlreadyExists on a Stat hit of the very rename target " +
-			"before any file is created; file.Store.push/Add return ErrDuplicateName before any file effect and mark the name only after success; Tag in the three stores reaches the resolver only on the Exists==true edge and reports ErrNotFound otherwise; " +
+			"before any file is created; file.Store.push/Add return ErrDuplicateName before any file effect, keep the per-name lock from the check through every content effect and mark the name only after success; Tag in the three stores reaches the resolver only on the Exists==true edge and reports ErrNotFound otherwise; " +
 			"resolver.Memory.Resolve reports ErrNotFound for unknown references; empty references are rejected with ErrMissingReference before state is touched; oci.Store.Untag refuses a digest reference before untagging. " +
 			"NOT decided (not applicable to static analysis): equivalence with a reference model over histories, linearizability, byte-exact Fetch results.",
 		Run:     runC06,
@@ -64,7 +64,7 @@ func c06GraphSpec() GuardSpec {
 
 func c06R1(c *Ctx) {
 	const R = "C06.R1.guarded-by"
-	c.Expect(R, 63)
+	c.Expect(R, 55) // 67 on the pinned tree; an accessor method contributes 1-3 obligations
 	// anchors: guarded fields and their mutexes must exist
 	for _, sp := range append(c06GuardSpecs(), c06GraphSpec()) {
 		i := strings.LastIndex(sp.Type, ".")
@@ -88,6 +88,76 @@ func c06R1(c *Ctx) {
 	LockCheck(c, R, append(c06GuardSpecs(), c06GraphSpec()), pkgs)
 	c06UnsafeStore(c, R)
 	c06ConstructionOnly(c, R, "(*~/content/oci.Store).loadIndexFile")
+	c06BlobRemovalExclusive(c, R)
+}
+
+// c06BlobRemovalExclusive: in the methods of oci.Store, removing blobs
+// (storage.Delete, os.Remove) happens only with s.sync held exclusively,
+// locally or in every static caller (Delete -> delete).
+func c06BlobRemovalExclusive(c *Ctx, R string) {
+	fns := c.P.FuncsOfPkg("content/oci")
+	heldC := map[*ssa.Function]map[ssa.Instruction]heldSet{}
+	held := func(f *ssa.Function) map[ssa.Instruction]heldSet {
+		if h, ok := heldC[f]; ok {
+			return h
+		}
+		h := heldAt(f, heldSet{})
+		heldC[f] = h
+		return h
+	}
+	var holds func(f *ssa.Function, at ssa.Instruction, depth int) (bool, string)
+	holds = func(f *ssa.Function, at ssa.Instruction, depth int) (bool, string) {
+		if len(f.Params) == 0 {
+			return false, "no receiver"
+		}
+		lp := "P:" + f.Params[0].Name() + ".sync"
+		if at != nil && held(f)[at][lp] >= modeW {
+			return true, ""
+		}
+		if depth > 3 {
+			return false, "caller chain too deep"
+		}
+		if f.Object() != nil && f.Object().Exported() {
+			return false, FnName(f) + " is exported and does not hold " + lp + " exclusively"
+		}
+		n := 0
+		for _, g := range fns {
+			for _, call := range Calls(g, func(string) bool { return true }) {
+				if StaticCallee(call) != f {
+					continue
+				}
+				n++
+				if _, isPlain := call.(*ssa.Call); !isPlain {
+					return false, "called via go/defer from " + FnName(g)
+				}
+				if len(g.Params) == 0 || strip(call.Common().Args[0]) != ssa.Value(g.Params[0]) {
+					return false, "called from " + FnName(g) + " on a different store value"
+				}
+				if ok, why := holds(g, call.(ssa.Instruction), depth+1); !ok {
+					return false, why
+				}
+			}
+		}
+		if n == 0 {
+			return false, FnName(f) + " has no static caller holding the lock"
+		}
+		return true, ""
+	}
+	n := 0
+	for _, f := range fns {
+		if f.Signature.Recv() == nil || !strings.HasSuffix(f.Signature.Recv().Type().String(), "content/oci.Store") {
+			continue
+		}
+		for _, call := range CallsTo(f, "(*~/content/oci.Storage).Delete", "os.Remove", "os.RemoveAll") {
+			n++
+			ok, why := holds(f, call.(ssa.Instruction), 0)
+			c.Check(R, FnName(f)+"|"+CalleeName(call)+"|blob-removal-under-exclusive-lock", call.Pos(), ok,
+				ifelse(ok, "s.sync is held in W mode (locally or in every caller) where blobs are removed", "blobs are removed without exclusive access to the store ("+why+"): a concurrent Fetch/Push/Tag observes content that vanishes mid-operation"))
+		}
+	}
+	if n == 0 {
+		c.OK(R, "~/content/oci.Store|blob-removal-under-exclusive-lock", token.NoPos, "the OCI store never removes blobs")
+	}
 }
 
 // c06UnsafeStore proves the exemption of unsafeStore.{Fetch,Predecessors}:
@@ -341,7 +411,7 @@ func c06Fn(c *Ctx, R, pkg, name string) *ssa.Function {
 
 func c06R2Memory(c *Ctx) {
 	const R = "C06.R2.refuse-before-mutate"
-	c.Expect(R, 28) // 29 on the pinned tree; the fast pre-check in cas.Memory.Push is optional
+	c.Expect(R, 30) // 31 on the pinned tree; the fast pre-check in cas.Memory.Push is optional
 	fn := c06Fn(c, R, "internal/cas", "Memory.Push")
 	if fn == nil {
 		return
@@ -477,10 +547,12 @@ func c06R2File(c *Ctx) {
 			}
 		}
 		var dupE, freeE []Edge
+		statusBases := map[string]bool{}
 		for _, i := range Ifs(fn) {
 			cond, t, f := ifEdges(i)
 			if u, ok := cond.(*ssa.UnOp); ok && u.Op == token.MUL && c05IsFieldAddrOf(u.X, "~/content/file.nameStatus", "exists") {
 				dupE, freeE = append(dupE, t), append(freeE, f)
+				statusBases[accessPath(u.X.(*ssa.FieldAddr).X)] = true
 			}
 		}
 		ok, why := c06Refusal(c, fn, dupE, "~/content/file.ErrDuplicateName", effects)
@@ -493,6 +565,21 @@ func c06R2File(c *Ctx) {
 		}
 		c.Check(R, tn+"|effects-only-for-free-name", fn.Pos(), ok2,
 			ifelse(ok2, fmt.Sprintf("%d content effect(s) all lie behind the exists==false edge", len(effects)), "a content effect at "+bad+" is reachable without the duplicate-name check"))
+		// check-then-act is atomic per name: the status lock taken for the check is still held (W) at every content effect
+		held := heldAt(fn, heldSet{})
+		ok3, bad3 := len(statusBases) > 0, "no nameStatus lock found"
+		for _, e := range effects {
+			okE := false
+			for b := range statusBases {
+				if held[e][b+".RWMutex"] >= modeW {
+					okE = true
+				}
+			}
+			if !okE {
+				ok3, bad3 = false, "the per-name lock is not held exclusively at the content effect at "+c.P.Pos(e.Pos())+": two concurrent pushes of one name both pass the duplicate check and both write"
+			}
+		}
+		c.Check(R, tn+"|effects-under-name-lock", fn.Pos(), ok3, ifelse(ok3, "the per-name lock is held in W mode from the duplicate check through every content effect", bad3))
 	}
 	c05ExistsAfterSuccess(c, R, "(*~/content/file.Store).Add")
 }
@@ -798,6 +885,8 @@ var c06Mutants = []Mutant{
 	{Name: "file-nameexists-without-lock", File: "content/file/file.go", Old: "\tstatus.RLock()\n\tdefer status.RUnlock()\n\n", New: "", Expect: "C06.R1.guarded-by|(*~/content/file.Store).nameExists|"},
 	{Name: "file-push-unlocks-before-marking", File: "content/file/file.go", Old: "\t// update the name status as existed\n\tstatus.exists = true\n\treturn nil\n}\n\n// restoreDuplicates", New: "\t// update the name status as existed\n\tstatus.Unlock()\n\tstatus.exists = true\n\tstatus.Lock()\n\treturn nil\n}\n\n// restoreDuplicates", Expect: "C06.R1.guarded-by|(*~/content/file.Store).push|"},
 	{Name: "graph-exists-without-lock", File: "internal/graph/memory.go", Old: "\tm.lock.RLock()\n\tdefer m.lock.RUnlock()\n\n\tnodeKey := descriptor.FromOCI(node)\n\t_, exists := m.nodes[nodeKey]", New: "\tnodeKey := descriptor.FromOCI(node)\n\t_, exists := m.nodes[nodeKey]", Expect: "C06.R1.guarded-by|(*~/internal/graph.Memory).Exists|"},
+	{Name: "oci-delete-shared-lock-no-referrers", File: "content/oci/oci.go", Old: "\ts.sync.Lock()\n\tdefer s.sync.Unlock()\n\n\tdeleteQueue := []ocispec.Descriptor{target}\n\tfor len(deleteQueue) > 0 {\n\t\thead := deleteQueue[0]\n\t\tdeleteQueue = deleteQueue[1:]\n\n\t\t// get referrers if applicable\n\t\tif s.AutoGC && descriptor.IsManifest(head) {\n\t\t\treferrers, err := registry.Referrers(ctx, &unsafeStore{s}, head, \"\")", New: "\ts.sync.RLock()\n\tdefer s.sync.RUnlock()\n\n\tdeleteQueue := []ocispec.Descriptor{target}\n\tfor len(deleteQueue) > 0 {\n\t\thead := deleteQueue[0]\n\t\tdeleteQueue = deleteQueue[1:]\n\n\t\t// get referrers if applicable\n\t\tif s.AutoGC && descriptor.IsManifest(head) {\n\t\t\treferrers, err := registry.Referrers(ctx, s, head, \"\")", Expect: "C06.R1.guarded-by|(*~/content/oci.Store).delete|(*~/content/oci.Storage).Delete|blob-removal-under-exclusive-lock"},
+	{Name: "file-push-releases-name-lock-while-writing", File: "content/file/file.go", Old: "\tif needUnpack := expected.Annotations[AnnotationUnpack]; needUnpack == \"true\" && !s.SkipUnpack {\n\t\terr = s.pushDir(name, target, expected, content)\n\t} else {\n\t\terr = s.pushFile(target, expected, content)\n\t}\n", New: "\tstatus.Unlock()\n\tif needUnpack := expected.Annotations[AnnotationUnpack]; needUnpack == \"true\" && !s.SkipUnpack {\n\t\terr = s.pushDir(name, target, expected, content)\n\t} else {\n\t\terr = s.pushFile(target, expected, content)\n\t}\n\tstatus.Lock()\n", Expect: "C06.R2.refuse-before-mutate|(*~/content/file.Store).push|effects-under-name-lock"},
 	// R2
 	{Name: "memory-existing-reported-as-pushed", File: "internal/cas/memory.go", Old: "\tif _, exists := m.content.LoadOrStore(key, value); exists {\n\t\treturn fmt.Errorf(\"%s: %s: %w\", key.Digest, key.MediaType, errdef.ErrAlreadyExists)\n\t}\n\treturn nil", New: "\tm.content.LoadOrStore(key, value)\n\treturn nil", Expect: "C06.R2.refuse-before-mutate|(*~/internal/cas.Memory).Push|"},
 	{Name: "memory-fast-check-returns-nil", File: "internal/cas/memory.go", Old: "\tif _, exists := m.content.Load(key); exists {\n\t\treturn fmt.Errorf(\"%s: %s: %w\", key.Digest, key.MediaType, errdef.ErrAlreadyExists)\n\t}\n\n\t// read and try", New: "\tif _, exists := m.content.Load(key); exists {\n\t\treturn nil\n\t}\n\n\t// read and try", Expect: "C06.R2.refuse-before-mutate|(*~/internal/cas.Memory).Push|fast-check-refuses"},
